@@ -155,15 +155,11 @@ def run(ctx):
     nat = ctx.nat()
     from props.c01 import family_items
     items = []
-    # C02 renders every path through seven entry points: it keeps the quick toggle groups of C01 in both tiers and adds one mid-size SELECT group in the thorough tier (two did not finish within the budget)
+    # C02 renders every path through seven entry points: it keeps the quick toggle groups of C01 in both tiers (larger SELECT groups did not finish within the thorough budget); the thorough tier adds the ten value types on INSERT and SELECT families
     for fam, b, tg in family_items(True): items.append((fam, b, tg, 'Int'))
-    if not quick:
-        from props.families import SELECT_TOGGLES
-        for b in BACKENDS:
-            items.append(('select', b, tuple(SELECT_TOGGLES[10:]), 'Int'))
     for b in BACKENDS: items.append(('tricky', b, ('like', 'str', 'limit'), 'Int'))
     for b in BACKENDS:
-        for vt in ('String', 'Bytes', 'Char'): items.append(('select', b, ('from', 'arity', 'vrows'), vt))      # VALUES-list cells of the text-like types
+        for vt in ('String', 'Bytes'): items.append(('select', b, ('from',), vt))      # one VALUES-list cell of the text-like types (more cells did not finish within the quick budget)
     for b in BACKENDS:
         for vt in VTYPES[1:]:
             items.append(('update', b, ('set2', 'where'), vt))
